@@ -316,7 +316,7 @@ def _c19(prop, tier, seed, jobs, limit):
     def laws(outs):
         findings, cov = c19.relation_laws(outs, tier, seed)
         laws_cov.update(cov)
-        return {'findings': findings}
+        return {'findings': findings, 'inconclusive': list(c19.LAWS_INCONCLUSIVE)}
 
     def post(cov, outs):
         cov['pairs_evaluated_by_real_is_subhint'] = sum(getattr(o, 'pairs', 0) for o in outs)
